@@ -84,14 +84,16 @@ fn token_value(t: u64) -> Value {
 enum CallKind {
     Json,
     TypedJson,
+    TypedBeve,
     Raw(usize),
     Empty,
 }
 fn draw_kind() -> CallKind {
-    match simkernel::choose(6) {
+    match simkernel::choose(7) {
         0 | 1 => CallKind::Json,
         2 => CallKind::TypedJson,
         3 => CallKind::Empty,
+        4 => CallKind::TypedBeve,
         _ => CallKind::Raw(pick(&[0usize, 1, 47, 48, 49, 300, 5000])),
     }
 }
@@ -118,6 +120,18 @@ async fn do_call(client: &WebSocketClient, kind: CallKind, token: u64, to: Optio
             match r {
                 Ok(v) if v == token_value(token) => Ok(()),
                 Ok(v) => Err(format!("WRONG-RESPONSE call {token} got {v}")),
+                Err(e) => Err(format!("error: {e}")),
+            }
+        }
+        CallKind::TypedBeve => {
+            let body = (token, format!("tok-{token}"));
+            let r: Result<(u64, String), _> = match to {
+                Some(d) => client.call_typed_beve_with_timeout(&path, &body, d).await,
+                None => client.call_typed_beve(&path, &body).await,
+            };
+            match r {
+                Ok(v) if v == body => Ok(()),
+                Ok(v) => Err(format!("WRONG-RESPONSE call {token} got {v:?}")),
                 Err(e) => Err(format!("error: {e}")),
             }
         }
@@ -296,7 +310,7 @@ fn c04_ws_client(case: &Case) {
             let case = case.clone();
             hs.push(tokio::spawn(async move {
                 jitter().await;
-                let out = c.batch_json(reqs).await;
+                let out = if simkernel::choose(2) == 0 { c.batch_json(reqs).await } else { c.batch_json_with_timeout(reqs, Duration::from_secs(3_600)).await };
                 if out.len() != expect.len() {
                     case.fail("batch-misaligned", format!("batch of {} returned {} results", expect.len(), out.len()));
                     return;
